@@ -142,8 +142,16 @@ CELER_FUNCTION TrackInitializer ScintillationGenerator::operator()(Generator& rn
         = NormalDistribution{component.lambda_mean, component.lambda_sigma};
     ExponentialDist sample_time(real_type{1} / component.fall_time);
 
+    // The tail of the normal distribution extends below zero: reject
+    // unphysical (nonpositive) wavelengths
+    real_type wavelength;
+    do
+    {
+        wavelength = sample_lambda_(rng);
+    } while (CELER_UNLIKELY(wavelength <= 0));
+
     TrackInitializer photon;
-    photon.energy = detail::wavelength_to_energy(sample_lambda_(rng));
+    photon.energy = detail::wavelength_to_energy(wavelength);
 
     // Sample direction
     real_type cost = sample_cost_(rng);
